@@ -2,6 +2,7 @@ import Kio.Wire
 import Kio.Model.Current
 import Kio.Spec.Wire
 import Kio.Generated.All
+import Kio.WireRec
 /-!
 Line-protocol driver (DESIGN §4.2): one request per line on stdin, one reply per line on stdout.
 Run with `lake env lean --run Driver.lean`.
@@ -10,6 +11,7 @@ open Kio
 
 structure St where
   env : Env
+  rcfg : RecCfg
   classes : Array Schema
 
 def renderDec (total : Nat) : Except Err (Value × Bytes) → String
@@ -127,6 +129,37 @@ def step (st : St) (line : String) : St × String :=
     | some s, some (v, []) => (st, match Spec.enc s v with
         | some b => s!"ok {hexTok b}" | none => "none")
     | _, _ => (st, "bad-op")
+  | ["reccfg", a, b] => ({ st with rcfg := { exactReads := a = "1", roundTs := b = "1" } }, "ok")
+  | ["rbatch", hex] =>
+    match bytesOfHex hex with
+    | some bs => (st, match readBatch st.rcfg bs with
+        | .ok (b, rest) => s!"ok {bs.length - rest.length} {b.toValue.render}"
+        | .error e => s!"err {e.cls} {e.name}")
+    | none => (st, "bad-op")
+  | "wbatch" :: toks =>
+    match parseValue toks with
+    | some (v, []) =>
+      match NewRecordBatch.ofValue v, RecordBatch.ofValue v with
+      | some nb, _ => (st, renderEnc (writeNewBatch st.rcfg nb))
+      | none, some b => (st, renderEnc (writePreparedBatch st.rcfg b))
+      | none, none => (st, "bad-op")
+    | _ => (st, "bad-op")
+  | "specbatch" :: toks =>
+    match parseValue toks with
+    | some (v, []) =>
+      match Spec.WireBatch.ofValue v with
+      | some b => (st, match Spec.batchBytes b with | some bs => s!"ok {hexTok bs}" | none => "none")
+      | none => (st, "bad-op")
+    | _ => (st, "bad-op")
+  | ["specdec", hex] =>
+    match bytesOfHex hex with
+    | some bs => (st, match Spec.decBatch bs with
+        | some b => s!"ok {b.toValue.render}" | none => "none")
+    | none => (st, "bad-op")
+  | ["crc", hex] =>
+    match bytesOfHex hex with
+    | some bs => (st, s!"ok {Crc.crc32c bs}")
+    | none => (st, "bad-op")
   | _ => (st, "bad-op")
 
 partial def loop (h : IO.FS.Stream) (out : IO.FS.Stream) (st : St) : IO Unit := do
@@ -138,5 +171,5 @@ partial def loop (h : IO.FS.Stream) (out : IO.FS.Stream) (st : St) : IO Unit := 
   loop h out st'
 
 def main : IO Unit := do
-  let st : St := { env := Env.current Kio.Generated.errorCodes, classes := Kio.Generated.allClasses.toArray }
+  let st : St := { env := Env.current Kio.Generated.errorCodes, rcfg := RecCfg.current, classes := Kio.Generated.allClasses.toArray }
   loop (← IO.getStdin) (← IO.getStdout) st
